@@ -30,8 +30,8 @@ func ReadBytes(source io.Reader) ([]byte, error) {
 	} else if length == 0 {
 		return []byte{}, nil
 	} else {
-		decoded := make([]byte, length)
-		if _, err := io.ReadFull(source, decoded); err != nil {
+		decoded, err := readContent(source, length)
+		if err != nil {
 			return nil, fmt.Errorf("cannot read [bytes] content: %w", err)
 		}
 		return decoded, nil
